@@ -50,6 +50,9 @@ func init() {
 	regSafety("C07", mkC07, shC07)
 	regSafety("C11", mkC11, shC11)
 	regSafety("C12", mkC12, shC12)
+	replayers["C12"] = append(replayers["C12"], func(vals []int, keepLog bool) *sim.World {
+		return RunNestedTx(&ReplaySrc{Vals: vals}, mkC12(), keepLog)
+	})
 	regSafety("C13", mkC13, shC13)
 }
 
@@ -134,10 +137,26 @@ func TestC11(t *testing.T) {
 }
 
 func TestC12(t *testing.T) {
-	runProp(t, "C12", func(e *Env) func(*rapid.T) {
-		return SafetyProp(e, mkC12, shC12, func(w *sim.World) bool {
-			return w.Stats["c12_nontrivial"] > 0
+	SkipUnlessSelected(t, "C12")
+	e := GetEnv("C12")
+	defer e.Flush()
+	rapid.Check(t, SafetyProp(e, mkC12, shC12, func(w *sim.World) bool {
+		return w.Stats["c12_nontrivial"] > 0
+	}))
+	if t.Failed() {
+		return
+	}
+	// the nested case: completing a proposal changes the view and starts a cached proposal inside the call
+	rapid.Check(t, func(t *rapid.T) {
+		src := &RapidSrc{T: t}
+		w := RunNestedTx(src, mkC12(), false)
+		fatal := e.Report(w, src.Rec, func() string {
+			return RunNestedTx(&ReplaySrc{Vals: src.Rec}, mkC12(), true).Render()
 		})
+		e.Case(FPInts(src.Rec), w.Stats["c12_nested_view_change"] > 0 && w.Stats["c12_obligation_checked"] > 0, w.Stats, func() any { return sampleOf(w, src.Rec) })
+		if fatal != "" {
+			t.Fatalf("%s", fatal)
+		}
 	})
 }
 
